@@ -83,6 +83,11 @@ func instantiate(assumes []*Term, goal *Term) ([]*Term, *Term, bool) {
 	g2 := skolemizeGoal(goal)
 	any := g2 != goal
 	all := append(append([]*Term{}, assumes...), g2)
+	if uf := unfoldRec(all, 2); len(uf) > 0 {
+		assumes = append(append([]*Term{}, assumes...), uf...)
+		all = append(all, uf...)
+		any = true
+	}
 	cands := groundIndexTerms(all)
 	occs := collectSelOccs(all)
 	inst := func(q *Term) []*Term {
@@ -115,7 +120,36 @@ func instantiate(assumes []*Term, goal *Term) ([]*Term, *Term, bool) {
 		}
 		out = append(out, a)
 	}
+	// existentials: skolemize the assumed ones, try the resulting constants (and every other ground
+	// index term) as witnesses for the goal's
+	var sks []*Term
+	for i, a := range out {
+		out[i] = skolemizePositive(a, &sks)
+	}
+	if hasExists(g2) {
+		for _, c := range sks {
+			cands[c.Sort] = append(cands[c.Sort], c)
+		}
+		// also arithmetic neighbours of select indices (x+1) appear as ground terms already
+		g3 := witnessGoal(g2, cands)
+		if g3 != g2 {
+			g2 = g3
+			any = true
+		}
+	}
 	return out, g2, any
+}
+
+func hasExists(t *Term) bool {
+	if t.Kind == kQuant && t.Op == "exists" {
+		return true
+	}
+	for _, a := range t.Args {
+		if hasExists(a) {
+			return true
+		}
+	}
+	return false
 }
 
 // trigger-based instantiation: a quantified variable that occurs as a select index is instantiated with
@@ -127,11 +161,19 @@ type selOcc struct {
 }
 
 func selChain(t *Term) (*Term, []*Term) {
-	// select(select(A, i), j) -> A, [i, j]
+	// select(select(A, i), j) -> A, [i, j]; stores on intermediate arrays are looked through:
+	// select(store(select(A, i), k, v), j) is (also) a read of A at [i, j]
 	var idx []*Term
-	for t.Kind == kApp && t.Op == "select" {
-		idx = append([]*Term{t.Args[1]}, idx...)
-		t = t.Args[0]
+	for {
+		for t.Kind == kApp && t.Op == "store" && len(idx) > 0 {
+			t = t.Args[0]
+		}
+		if t.Kind == kApp && t.Op == "select" {
+			idx = append([]*Term{t.Args[1]}, idx...)
+			t = t.Args[0]
+			continue
+		}
+		break
 	}
 	return t, idx
 }
@@ -411,4 +453,119 @@ func closureAxioms(ts []*Term) []*Term {
 		}
 	}
 	return out
+}
+
+// unfoldRec: one-step unfolding equations f(args) = body[args] for the ground applications of recursive
+// spec functions occurring in ts (used where the definitions themselves are abstracted away).
+func unfoldRec(ts []*Term, rounds int) []*Term {
+	var out []*Term
+	done := map[string]bool{}
+	cur := ts
+	for r := 0; r < rounds; r++ {
+		var apps []*Term
+		seen := map[*Term]bool{}
+		var walk func(t *Term)
+		walk = func(t *Term) {
+			if seen[t] {
+				return
+			}
+			seen[t] = true
+			for _, a := range t.Args {
+				walk(a)
+			}
+			if t.Kind == kUF && !t.hasBV {
+				if _, ok := recDefBodies[t.Op]; ok && !done[t.String()] {
+					done[t.String()] = true
+					apps = append(apps, t)
+				}
+			}
+		}
+		for _, t := range cur {
+			walk(t)
+		}
+		if len(apps) == 0 {
+			break
+		}
+		var eqs []*Term
+		for _, a := range apps {
+			params := recDefParams[a.Op]
+			if len(params) != len(a.Args) {
+				continue
+			}
+			m := map[string]*Term{}
+			for i, p := range params {
+				m[p.Op] = a.Args[i]
+			}
+			eqs = append(eqs, Eq(a, Subst(recDefBodies[a.Op], m)))
+		}
+		out = append(out, eqs...)
+		cur = eqs
+	}
+	return out
+}
+
+// skolemizePositive replaces existential quantifiers at positive positions of a closed formula by fresh
+// constants (equisatisfiable); the constants are returned so that they can serve as witnesses elsewhere.
+func skolemizePositive(t *Term, consts *[]*Term) *Term {
+	switch {
+	case t.Kind == kQuant && t.Op == "exists" && !freeBound(t):
+		m := map[string]*Term{}
+		for _, v := range t.Bound {
+			c := Fresh("sk$"+trimName(v.Op), v.Sort)
+			m[v.Op] = c
+			*consts = append(*consts, c)
+		}
+		return skolemizePositive(Subst(t.Args[0], m), consts)
+	case t.Kind == kApp && t.Op == "and":
+		var cs []*Term
+		for _, a := range t.Args {
+			cs = append(cs, skolemizePositive(a, consts))
+		}
+		return And(cs...)
+	case t.Kind == kApp && t.Op == "=>" && !t.hasBV:
+		return Implies(t.Args[0], skolemizePositive(t.Args[1], consts))
+	}
+	return t
+}
+
+// witnessGoal replaces existential quantifiers at positive positions of the goal by the finite
+// disjunction over candidate witnesses (a stronger goal: proving it proves the original).
+func witnessGoal(g *Term, cands map[Sort][]*Term) *Term {
+	switch {
+	case g.Kind == kQuant && g.Op == "exists" && !freeBound(g):
+		var alts []*Term
+		var rec func(i int, m map[string]*Term)
+		rec = func(i int, m map[string]*Term) {
+			if len(alts) >= 300 {
+				return
+			}
+			if i == len(g.Bound) {
+				alts = append(alts, witnessGoal(Subst(g.Args[0], m), cands))
+				return
+			}
+			cs := cands[g.Bound[i].Sort]
+			if len(cs) > 40 {
+				cs = cs[len(cs)-40:]
+			}
+			for _, c := range cs {
+				m[g.Bound[i].Op] = c
+				rec(i+1, m)
+			}
+			delete(m, g.Bound[i].Op)
+		}
+		rec(0, map[string]*Term{})
+		if len(alts) == 0 {
+			return g
+		}
+		return Or(alts...)
+	case g.Kind == kApp && g.Op == "and":
+		var cs []*Term
+		for _, a := range g.Args {
+			cs = append(cs, witnessGoal(a, cands))
+		}
+		return And(cs...)
+	case g.Kind == kApp && g.Op == "=>" && !g.hasBV:
+		return Implies(g.Args[0], witnessGoal(g.Args[1], cands))
+	}
+	return g
 }
